@@ -56,32 +56,33 @@ type ListenerSpec struct {
 
 // DG is one datagram sent towards the server.
 type DG struct {
-	ID          int64
-	L           int // listener index
-	V6          bool
-	Bytes       []byte
-	Src         net.UDPAddr
-	IfIndex     int
-	Kind        string
-	Actor       int // client index (-1: none)
-	Req4        *dhcpv4.DHCPv4
-	Req6        dhcpv6.DHCPv6
-	ParseErr    error
-	SentAt      int64
-	Dropped     bool
-	Delivered   bool
-	DeliveredAt int64
-	Inc         int
-	Call        int64
-	Ret         int64
-	HandlerTask int
-	Handled     bool // handler task ended
-	Killed      bool // handler (or queue) died in a crash
-	Replies     []*Reply
-	DupOf       int64
-	Mutated     bool
-	Meta        interface{}
-	Invs        []*Invocation
+	ID            int64
+	L             int // listener index
+	V6            bool
+	Bytes         []byte
+	Src           net.UDPAddr
+	IfIndex       int
+	Kind          string
+	Actor         int // client index (-1: none)
+	Req4          *dhcpv4.DHCPv4
+	Req6          dhcpv6.DHCPv6
+	ParseErr      error
+	SentAt        int64
+	Dropped       bool
+	Delivered     bool
+	DeliveredAt   int64
+	DeliveredStep int64
+	Inc           int
+	Call          int64
+	Ret           int64
+	HandlerTask   int
+	Handled       bool // handler task ended
+	Killed        bool // handler (or queue) died in a crash
+	Replies       []*Reply
+	DupOf         int64
+	Mutated       bool
+	Meta          interface{}
+	Invs          []*Invocation
 }
 
 // Reply is one datagram (or frame) the server sent.
@@ -394,6 +395,7 @@ func (w *World) deliver(dg *DG) {
 	}
 	dg.Delivered = true
 	dg.DeliveredAt = w.Sim.Now()
+	dg.DeliveredStep = w.Sim.Steps
 	dg.Inc = w.Inc
 	dg.Call = simrt.NextSeq()
 	w.Delivered++
@@ -736,3 +738,5 @@ func (w *World) describe() string {
 	fmt.Fprintf(&sb, " listeners=%v sched=%+v", w.LSpecs, w.Sim.Cfg)
 	return sb.String()
 }
+
+func os_stderr() *os.File { return os.Stderr }
